@@ -68,9 +68,9 @@ class Site:
         if t["k"] == "assert":
             m = t["msg"]
             ops = [m[k] for k in ("a", "b", "len", "index") if k in m]
-            self.opnds = [body.expr_operand(o) for o in ops]
+            self.opnds = [body.expr_operand(o, 0, blk) for o in ops]
         else:
-            self.opnds = [body.expr_operand(a) for a in t["args"]]
+            self.opnds = [body.expr_operand(a, 0, blk) for a in t["args"]]
         self.text = ", ".join(fmt_expr(o) for o in self.opnds)
         self.module = module_of(body.path)
         self.key = "%s|%s|%s" % (self.module, kind, norm_expr(self.text))
@@ -178,7 +178,7 @@ def auto_discharge(site):
         m = t["msg"]
         ak = m["ak"]
         if ak in ("DivisionByZero", "RemainderByZero"):
-            ce = b.expr_operand(t["cond"])
+            ce = b.expr_operand(t["cond"], 0, site.blk)
             for n in walk(ce):
                 if n[0] == "bin" and n[1] == "Eq":
                     for x, y in ((n[2], n[3]), (n[3], n[2])):
@@ -186,7 +186,7 @@ def auto_discharge(site):
                             return "D1: divisor is the non-zero constant %s" % const_val(x)
             return None
         if ak == "BoundsCheck":
-            ln, ix = b.expr_operand(m["len"]), b.expr_operand(m["index"])
+            ln, ix = b.expr_operand(m["len"], 0, site.blk), b.expr_operand(m["index"], 0, site.blk)
             if const_val(ln) is not None and const_val(ix) is not None and 0 <= const_val(ix) < const_val(ln):
                 return "D2: constant index %d into a fixed array of %d" % (const_val(ix), const_val(ln))
             iv = interval(ix)
@@ -195,7 +195,7 @@ def auto_discharge(site):
             return None
         if ak == "Overflow":
             op = m["op"]
-            a, c = b.expr_operand(m["a"]), b.expr_operand(m["b"])
+            a, c = b.expr_operand(m["a"], 0, site.blk), b.expr_operand(m["b"], 0, site.blk)
             if op in ("Shl", "Shr"):
                 if const_val(c) is not None and 0 <= const_val(c) <= 7:
                     return "D1: constant shift amount %d (< width of every integer type)" % const_val(c)
